@@ -4,7 +4,12 @@
     (tree items t) (tree keys t) (tree values t)
     (tree fromitems (L item*))                 items_to_tree(items)
     (tree update t u (L ignore*))              tree_update(t, u, ignore = [...]) ; also Dict(t) + u
-    (tree get t (T S:k*))                      tree_getitem(t, path)
+    (tree get t (T S:k*) cls)                  tree_getitem(t, path); cls 0 = dict, 1 = Dict, 2 = dictattr (dotted fallback for 1, 2)
+    (tree gets t S:a.b.c cls)                  tree_getitem(t, 'a.b.c'): the string form, split on dots
+    (tree tget t (T S:k*) default)             tree_get(t, path, default)
+    (tree tset t (T S:k*) v (L ignore*))       tree_setitem(t, path, v, ignore) (in place): reply = the tree afterwards
+    (tree tsets t S:a.b v (L ignore*))         tree_setitem(t, 'a.b', v, ignore): string form
+    a trailing class argument of items / keys / values / update is accepted and ignored (the class is not modelled)
     (tree merge t u (L ignore*))               the specification `merge` (used by the harness as oracle)
     (tree updateh t u (L ignore*))             tree_update on the heap model (PygModel/TreeHeap.lean): both operands are
                                                laid out in a heap, the call is run with its item assignments, the result
@@ -59,9 +64,9 @@ def heapUpdate (t u : Val) (ig : List Val) : String :=
 
 def handle1 (op : String) (args : List Sexp) : Option String := do
   match op, args with
-  | "items", [t] => pure ("ok " ++ (Val.list ((items (← Val.ofSexp t)).map itemV)).render)
-  | "keys", [t] => pure ("ok " ++ (Val.list ((keys (← Val.ofSexp t)).map fun p => .tuple (p.map strV))).render)
-  | "values", [t] => pure ("ok " ++ (Val.list (values (← Val.ofSexp t))).render)
+  | "items", t :: _ => pure ("ok " ++ (Val.list ((items (← Val.ofSexp t)).map itemV)).render)
+  | "keys", t :: _ => pure ("ok " ++ (Val.list ((keys (← Val.ofSexp t)).map fun p => .tuple (p.map strV))).render)
+  | "values", t :: _ => pure ("ok " ++ (Val.list (values (← Val.ofSexp t))).render)
   | "fromitems", [its] =>
       match ← Val.ofSexp its with
       | .list xs => do
@@ -98,6 +103,26 @@ def handle1 (op : String) (args : List Sexp) : Option String := do
       match ← Val.ofSexp p with
       | .tuple xs => pure (res (getItem (← Val.ofSexp t) (← pathOf xs)))
       | _ => Option.none
+  | "get", [t, p, cls] =>
+      match ← Val.ofSexp p with
+      | .tuple xs => pure (res (getItemC ((← cls.toNat?) != 0) (← Val.ofSexp t) (← pathOf xs)))
+      | _ => Option.none
+  | "gets", [t, p, cls] =>
+      match ← Val.ofSexp p with
+      | .cell (.str s) => pure (res (getItemC ((← cls.toNat?) != 0) (← Val.ofSexp t) (s.splitOn ".")))
+      | _ => Option.none
+  | "tget", t :: p :: d :: _ =>
+      match ← Val.ofSexp p with
+      | .tuple xs => pure ("ok " ++ (treeGet (← Val.ofSexp t) (← pathOf xs) (← Val.ofSexp d)).render)
+      | _ => Option.none
+  | "tset", t :: p :: v :: ig :: _ =>
+      match ← Val.ofSexp t, ← Val.ofSexp p, ← Val.ofSexp ig with
+      | .dict kvs, .tuple xs, .list ig => pure (res ((treeSetItem kvs (← pathOf xs) (← Val.ofSexp v) ig).map .dict))
+      | _, _, _ => Option.none
+  | "tsets", t :: p :: v :: ig :: _ =>
+      match ← Val.ofSexp t, ← Val.ofSexp p, ← Val.ofSexp ig with
+      | .dict kvs, .cell (.str s), .list ig => pure (res ((treeSetItem kvs (s.splitOn ".") (← Val.ofSexp v) ig).map .dict))
+      | _, _, _ => Option.none
   | _, _ => Option.none
 
 def handle (s : St) (op : String) (args : List Sexp) : Option (St × String) :=
